@@ -46,8 +46,7 @@ Definition I_id (target : str) (incl : bool) (e : ev) : bool :=
 
 (* irreversible gates: the same tests, on irreversible events only *)
 Definition T_irrnum (target : N) (e : ev) : bool := is_irreversible e && T_num target e.
-Definition I_irrnum (target : N) (incl : bool) (e : ev) : bool :=
-  incl || (((target =? 0) || (target =? 1)) && (enum e =? 2)).
+Definition I_irrnum (first target : N) (incl : bool) (e : ev) : bool := I_num first target incl e.
 Definition T_irrid (target : str) (e : ev) : bool := is_irreversible e && T_id target e.
 
 (* what reaches the handler *)
@@ -62,9 +61,9 @@ Definition C17_suffix : Prop :=
   (forall target incl maxhold l,
      suffix_of_input (T_id target) (I_id target incl) l
        (fw_of (id_gate_step target maxhold) (g_init incl) l)) /\
-  (forall target incl maxhold l,
-     suffix_of_input (T_irrnum target) (I_irrnum target incl) l
-       (fw_of (irrnum_gate_step target maxhold) (g_init incl) l)) /\
+  (forall first target incl maxhold l,
+     suffix_of_input (T_irrnum target) (I_irrnum first target incl) l
+       (fw_of (irrnum_gate_step first target maxhold) (g_init incl) l)) /\
   (forall target incl maxhold l,
      suffix_of_input (T_irrid target) (I_id target incl) l
        (fw_of (irrid_gate_step target maxhold) (g_init incl) l)) /\
@@ -97,8 +96,8 @@ Definition C17_tripper : Prop :=
        forall j o, nth_error out j = Some o -> fst o = Nat.eqb j i).
 
 (* c17_first: a number gate set below the first streamable block opens inclusively at that
-   block, whatever its configured type.  The irreversible number gate has the rule with the
-   constants 0/1 and 2 instead of GetProtocolFirstStreamableBlock; stated as the code has it. *)
+   block, whatever its configured type: BlockNumGate and IrreversibleBlockNumGate (on its
+   irreversible events), for every first-streamable-block setting. *)
 Definition C17_first : Prop :=
   (forall first target incl maxhold l i e,
      target < first -> first_at (T_num target) l i -> nth_error l i = Some e -> enum e = first ->
@@ -107,10 +106,10 @@ Definition C17_first : Prop :=
   (forall first target incl maxhold e l,
      target < first -> enum e = first ->
      fw_of (num_gate_step first target maxhold) (g_init incl) (e :: l) = e :: l) /\
-  (forall target incl maxhold l i e,
-     target = 0 \/ target = 1 ->
-     first_at (T_irrnum target) l i -> nth_error l i = Some e -> enum e = 2 ->
-     fw_of (irrnum_gate_step target maxhold) (g_init incl) l = skipn i l).
+  (forall first target incl maxhold l i e,
+     target < first ->
+     first_at (T_irrnum target) l i -> nth_error l i = Some e -> enum e = first ->
+     fw_of (irrnum_gate_step first target maxhold) (g_init incl) l = skipn i l).
 
 (* c17_irr_only: until it is open an irreversible gate ignores every event whose step is not
    exactly StepIrreversible: nothing is forwarded, nil is returned, and the gate's state
@@ -125,7 +124,7 @@ Definition ignores_non_irreversible (T : ev -> bool) (step : gstate -> ev -> gst
        let full := run step (g_init incl) (l1 ++ l2) in
        firstn (length l1) full ++ Hold :: skipn (length l1) full).
 Definition C17_irr_only : Prop :=
-  (forall target maxhold, ignores_non_irreversible (T_irrnum target) (irrnum_gate_step target maxhold)) /\
+  (forall first target maxhold, ignores_non_irreversible (T_irrnum target) (irrnum_gate_step first target maxhold)) /\
   (forall target maxhold, ignores_non_irreversible (T_irrid target) (irrid_gate_step target maxhold)).
 
 (* c17_holdoff.  [held R l j] = how many events the gate has held back (events it looks at,
@@ -160,15 +159,22 @@ Definition C17_holdoff : Prop :=
      holdoff_rule always (T_num target) maxhold (num_gate_step first target maxhold)) /\
   (forall target maxhold,
      holdoff_rule always (T_id target) maxhold (id_gate_step target maxhold)) /\
-  (forall target maxhold,
-     holdoff_rule is_irreversible (T_irrnum target) maxhold (irrnum_gate_step target maxhold)) /\
+  (forall first target maxhold,
+     holdoff_rule is_irreversible (T_irrnum target) maxhold (irrnum_gate_step first target maxhold)) /\
   (forall target maxhold,
      holdoff_rule is_irreversible (T_irrid target) maxhold (irrid_gate_step target maxhold)) /\
   (forall first target maxhold incl, handler_propagates (num_gate_step first target maxhold) (g_init incl)) /\
   (forall target maxhold incl, handler_propagates (id_gate_step target maxhold) (g_init incl)) /\
-  (forall target maxhold incl, handler_propagates (irrnum_gate_step target maxhold) (g_init incl)) /\
+  (forall first target maxhold incl, handler_propagates (irrnum_gate_step first target maxhold) (g_init incl)) /\
   (forall target maxhold incl, handler_propagates (irrid_gate_step target maxhold) (g_init incl)) /\
   (handler_propagates realtime_gate_step false).
+
+(* IrreversibleBlockNumGate as shipped (first-streamable rule written with the constants 0, 1, 2)
+   breaks c17_first as soon as the first streamable block is not 2: *)
+Definition C17_irr_num_unfixed_refuted : Prop :=
+  exists first target incl maxhold l i e,
+    target < first /\ first_at (T_irrnum target) l i /\ nth_error l i = Some e /\ enum e = first /\
+    fw_of (irrnum_gate_step_unfixed target maxhold) (g_init incl) l <> skipn i l.
 
 (* The gate as shipped (before C17_fix_irreversible_id_gate_step) breaks c17_irr_only: *)
 Definition C17_irr_id_unfixed_refuted : Prop :=
